@@ -40,7 +40,7 @@ PROPS = {
         technique="Lean 4 proof (loop invariant by induction on fuel: accumulated ops denote the consumed prefix) + differential correspondence across engines",
     ),
     "C02": dict(
-        modules=["Copia.Props.C02", "Copia.Props.C02b", "Copia.Props.C02c", "Copia.Props.C18b", "Copia.Props.C08e"], namespaces=["Copia.C02"], runner="bb", bb_module="bb_bisync",
+        modules=["Copia.Props.C02", "Copia.Props.C02b", "Copia.Props.C02c", "Copia.Props.C18b", "Copia.Props.C08e", "Copia.Props.C02d"], namespaces=["Copia.C02"], runner="bb", bb_module="bb_bisync",
         assumptions=_BI_ASSUME, trusted_base=_BI_TB,
         level_text="Kernel-checked WHOLE-RUN theorem `no_version_lost` for the model of `copia bisync` (scan, reconcile against the trusted archive, apply the whole plan to the live trees), for every pair of trees and every archive: "
                    "under NoNameClash the run never stops on an I/O error and every content either side held before is held by BOTH sides afterwards, unless it was exactly the recorded base at its path and the other side had changed or deleted it. "
